@@ -211,6 +211,47 @@ pub fn judge_history(t: &Target, inputs: &[String], rep: &mut Rep, curfile: &Opt
     }
 }
 
+/// Long inputs are described, not stored: `unit (sep unit)*reps tail`.
+pub fn deep_input(gen: &Value) -> String {
+    let (unit, sep, tail) = (gen["unit"].as_str().unwrap_or("a"), gen["sep"].as_str().unwrap_or(" "), gen["tail"].as_str().unwrap_or(""));
+    let reps = gen["reps"].as_u64().unwrap_or(0) as usize;
+    let mut s = String::with_capacity((unit.len() + sep.len()) * (reps + 1) + tail.len());
+    s.push_str(unit);
+    for _ in 0..reps {
+        s.push_str(sep);
+        s.push_str(unit);
+    }
+    s.push_str(tail);
+    s
+}
+
+/// GLR parse of a long input on the small stack this worker was started with (VH_STACK_MB): parse() must return, i.e.
+/// nothing inside it may recurse once per token. A forest that comes back is forgotten, not dropped: dropping it happens
+/// after parse() and is not what C15 speaks about. The verdict "abort" is given by ./check from the .cur file.
+pub fn judge_deep(t: &Target, gen: &Value, rep: &mut Rep, curfile: &Option<String>) {
+    let input = deep_input(gen);
+    let case = || json!({"grammar": t.text, "grammar_name": t.name, "settings": t.spec.to_json(), "input_gen": gen, "lexer": 0, "env": {"VH_C15_DEEP": "1", "VH_STACK_MB": std::env::var("VH_STACK_MB").unwrap_or_default()}});
+    if let Some(cf) = curfile {
+        let _ = std::fs::write(cf, case().to_string());
+    }
+    crate::rep::watchdog::set(|| case().to_string());
+    let budget = 20_000 * (input.len() as u64 + 1);
+    dynp::set_step_limit(budget);
+    rep.count("evaluations", 1);
+    rep.count("small_stack_long_input_parses", 1);
+    let r = guarded(|| t.dy.glr_parse(&input).map(std::mem::forget));
+    let kind = (outcome_str(&r), r.err().flatten());
+    rep.max("max_small_stack_input_tokens", gen["reps"].as_u64().unwrap_or(0) + 1);
+    rep.count(&format!("outcome:{}", kind.0), 1);
+    rep.distinct("nontrivial", fnv(&format!("{}|deep|{}|{}", t.name, gen, kind.0)) ^ fnv(&t.text));
+    let sigk = |k: &str| format!("{}:{}:{}:deep:{}", k, fnv(&t.text), fnv(&t.spec.to_json().to_string()), fnv(&gen.to_string()));
+    match kind.0 {
+        "panic" => rep.violation("C15", &sigk("panic"), &format!("GLR parser panicked on a {}-token input: {}", gen["reps"], kind.1.unwrap_or_default()), case()),
+        "hang" => rep.violation("C15", &sigk("hang"), &format!("GLR parser exceeded the step budget {} on a {}-token input", budget, gen["reps"]), case()),
+        _ => {}
+    }
+}
+
 const NOISE: &[&str] = &[
     "", " ", "\n", "\r\n", "\t", "\u{0}", "\u{1}\u{7f}", "a\u{301}", "\u{301}", "𝄞", "\u{feff}", "\u{feff}a", "é", "aé", "éa", "a\u{a0}b", "\u{2028}", "\u{85}", "\u{200b}", "ÿ", "\u{d7ff}\u{e000}", "\u{10ffff}", "ab\u{0}c", "\\", "'", "\"", "/*", "//", "/* a", "*/",
 ];
@@ -368,12 +409,51 @@ pub fn main(a: &Args) {
                 let hist: Vec<String> = h.iter().map(|x| x.as_str().unwrap().to_string()).collect();
                 judge_history(&t, &hist, &mut rep, &None);
             }
+            if case["input_gen"].is_object() {
+                judge_deep(&t, &case["input_gen"], &mut rep, &curfile);
+                if let Some(cf) = &curfile {
+                    let _ = std::fs::remove_file(cf);
+                }
+            }
             if let Some(input) = case["input"].as_str() {
                 judge(&t, input, case["lexer"].as_u64().unwrap_or(0) as u8, &mut rep, &curfile);
                 if let Some(cf) = &curfile {
                     let _ = std::fs::remove_file(cf);
                 }
             }
+        }
+        rep.finish();
+        return;
+    }
+    if std::env::var_os("VH_C15_DEEP").is_some() {
+        // (f) GLR on long inputs with the stack of an ordinary thread (this worker runs with VH_STACK_MB=2): the graph
+        // structured stack and the packed forest are as deep as the input is long
+        let mut targets: Vec<(String, String)> = vec![("witness_list".into(), "A: A Tx | Tx;\nterminals\nTx: 'x';\n".into())];
+        for gname in ["left_list", "right_list", "dragon_expr"] {
+            targets.push((gname.to_string(), corpus().into_iter().find(|x| x.0 == gname).unwrap().1.text()));
+        }
+        let sizes: &[u64] = if a.thorough { &[20_000, 60_000, 200_000] } else { &[20_000, 60_000] };
+        for (name, text) in targets {
+            let spec = SetSpec { glr: true, ..Default::default() };
+            let Some(t) = mk_target(&name, &text, &spec, &wd, &mut rep) else {
+                rep.harness_error("deep-input grammar not compiled", json!({"grammar": text}));
+                continue;
+            };
+            let (unit, sep) = match name.as_str() {
+                "witness_list" => ("x", " "),
+                "dragon_expr" => ("i", " p "),
+                _ => ("a", " c "),
+            };
+            for &reps in sizes {
+                // the right-recursive list keeps every item on the GSS until the end: quadratic in debug builds
+                let reps = if name == "right_list" { reps.min(20_000) } else { reps };
+                for tail in [" \u{301}", "", " ("] {
+                    judge_deep(&t, &json!({"unit": unit, "sep": sep, "reps": reps, "tail": tail}), &mut rep, &curfile);
+                }
+            }
+        }
+        if let Some(cf) = &curfile {
+            let _ = std::fs::remove_file(cf);
         }
         rep.finish();
         return;
